@@ -263,3 +263,35 @@ func Summarize(fullName string) {}
 // with v constant); a value outside the range is reported as an unwinding failure, never
 // silently dropped. Natively the identity.
 func Concretize(v, lo, hi int) int { return v }
+
+// ---- determinism (C10): self-composition and per-process state
+
+// EffectsSnapshot keeps the effects (table writes, bank writes, events) of the execution
+// since OrmBegin; SameEffects compares the effects since OrmBegin with the kept ones.
+func EffectsSnapshot() { nativeDet().EffectsSnapshot() }
+func SameEffects() bool { return nativeDet().SameEffects() }
+
+// ProcessState marks the memory reachable from v (the keeper) as per-process state.
+func ProcessState(v interface{}) {}
+
+// HiddenWrites counts writes to per-process state (package-level variables, memory allocated
+// by package initialisers, memory marked with ProcessState) on this execution;
+// WallClockReads counts time.Now/time.Since calls, go statements and selects; MapRanges
+// counts iterations over maps with more than one entry (each order is explored).
+func HiddenWrites() int       { return 0 }
+func HiddenWriteName() string { return "" }
+func WallClockReads() int     { return 0 }
+func MapRanges() int          { return 0 }
+
+type detSupport interface {
+	EffectsSnapshot()
+	SameEffects() bool
+}
+
+func nativeDet() detSupport {
+	s, ok := Native.(detSupport)
+	if !ok {
+		panic("zzverif: native determinism support not installed")
+	}
+	return s
+}
